@@ -5,6 +5,7 @@ import itertools
 import re
 
 import build as B
+import nav_hist as NH
 import common as H
 from common import ANY_KIND, Case
 
@@ -57,7 +58,9 @@ class Prop:
     rule = ("typed trees: every ordered forest with <= N nodes (N=4 quick, 5 thorough) x kind assignments over "
             "{a,b,c} (all for <=4 nodes, sampled beyond) plus seeded random trees up to 14 nodes and wide forests (sibling lists up to ~18 nodes); siblings may carry "
             "equal-comparing data under different data_ids; queried kinds = every present kind, one absent kind and ANY_KIND, "
-            "any_kind on/off, every node.  A case is one tree; distinct = distinct (shape, kinds, labels); "
+            "any_kind on/off, every node; typed trees REACHED THROUGH A HISTORY (creation orders different from pre-order with "
+            "before= inserts, single remove / remove(keep_children) / remove_children on every node of small forests, random histories with "
+            "sort, clear + re-add, add, set_data; checked against an independent shadow forest).  A case is one tree; distinct = distinct (shape, kinds, labels); "
             "non-trivial = at least one sibling list with two different kinds or two nodes of one kind")
     exhaustive_note = "all shapes <= N nodes x all kind assignments (N=4 quick)"
     assumptions = ["identity of nodes is the allocation index recorded by a harness-side wrapper of Node.__init__"]
@@ -116,20 +119,50 @@ class Prop:
             ks = [rng.randrange(rng.choice([2, 3])) for _ in range(n)]
             nodes = B.shape_to_nodes(shape, lambda i, d, s, ks=ks: (0, KINDS[ks[i]], f"id{i}"))
             yield dict(typed=True, univ=["e:1"], nodes=nodes, query=KINDS)
+        # typed trees REACHED THROUGH A HISTORY (nav_hist.py): creation orders different from pre-order (children added to
+        # earlier branches later, before=<node>/<index>/True inserts); every single remove / remove(keep_children) /
+        # remove_children on every node of every small forest; random histories (TypedNode.move_to is not implemented)
+        hu = ["e:1", "e:1", "e:2", "s:x", "e:1", "s:y"]
+        for n in range(2, 5):
+            for shape in H.forests(n):
+                for ks in ([0] * n, [i % 2 for i in range(n)], [(i // 2) % 2 for i in range(n)]):
+                    nodes = B.shape_to_nodes(shape, lambda i, d, s, ks=ks: (i % len(hu), KINDS[ks[i]], f"id{i}"))
+                    yield dict(typed=True, univ=hu, nodes=nodes, query=KINDS, order_seed=n * 1000 + sum(ks) * 7 + len(shape), hist=[])
+                    if ks[-1] == (n - 1) % 2 and n > 1:
+                        hs = [h for h in NH.aimed(nodes, n) if h[0][0] != "move" and h[-1][0] != "move"]
+                        if tier == "quick":
+                            hs = rng.sample(hs, max(1, len(hs) // (2 if n < 4 else 4)))
+                        for hist in hs:
+                            yield dict(typed=True, univ=hu, nodes=nodes, query=KINDS, hist=hist)
+        for _ in range(40 if tier == "quick" else 300):
+            n = rng.randint(3, 12)
+            shape = H.random_shape(rng, n, deep=rng.choice([0.1, 0.4, 0.8]))
+            ks = [rng.randrange(rng.choice([1, 2, 3])) for _ in range(n)]
+            nodes = B.shape_to_nodes(shape, lambda i, d, s, ks=ks: (i % len(hu), KINDS[ks[i]], f"id{i}"))
+            yield dict(typed=True, univ=hu, nodes=nodes, query=KINDS, order_seed=rng.randrange(10 ** 6),
+                       hist=NH.random_hist(rng, n, len(hu), True, rng.randint(0, 5)))
 
     def shrink_candidates(self, desc):
+        if "hist" in desc:
+            yield from NH.shrink_hist(desc)
+            return
         for nodes in B.drop_one_node(desc["nodes"]):
             yield dict(desc, nodes=nodes)
 
     # ----- one case: build, observe implementation, oracle
     def run(self, desc) -> Case:
         global _LID
-        tree, U = B.build(desc)
+        hist_fail = None
+        if "hist" in desc:
+            tree, U, objs, sh, errors = NH.build_hist(desc)
+            hist_fail = NH.consistency(tree, objs, sh, errors)
+        else:
+            tree, U = B.build(desc)
         ks = [ANY_KIND] + list(desc["query"])
         nodes = B.all_nodes(tree._root)
         local = {H.nid(x): i + 1 for i, x in enumerate(nodes)}
         local[0] = 0
-        _LID = lambda x: -1 if x is None else local[H.nid(x)]   # noqa: E731
+        _LID = lambda x: -1 if x is None else local.get(H.nid(x), -7)   # noqa: E731  (-7: not reachable from the root)
 
         def sib_obs(n, any_kind):
             return [
@@ -153,14 +186,14 @@ class Prop:
         top = [[on(call(lambda: tree.first_child(k))), on(call(lambda: tree.last_child(k)))] for k in ks]
         obs = [per_node, it, top]
 
-        fail = self.oracle(tree, nodes, ks, obs)
+        fail = hist_fail or self.oracle(tree, nodes, ks, obs)
         forest = re.sub(r"\(Tz (\d+) ", lambda m: f"(Tz {local[int(m.group(1))]} ", H.coq_forest(tree._root, U))
         coq = f"({forest}, {H.coq_list(H.coq_text(k) for k in desc['query'])})"
         kinds_in_sibs = [len({c.kind for c in (p._children or [])}) for p in [tree._root] + nodes]
         sizes = [len(p._children or []) for p in [tree._root] + nodes]
         return Case(desc=desc, coq_input=coq, impl_obs=obs, oracle_fail=fail,
                     nontrivial=max(sizes, default=0) >= 2,
-                    key=H.digest([desc["nodes"]]),
+                    key=H.digest([desc["nodes"], desc.get("order_seed"), desc.get("hist")]),
                     stats=dict(nodes=len(nodes), max_sibs=max(sizes, default=0), max_kinds_per_list=max(kinds_in_sibs, default=0)))
 
     # ----- the property statement, executed directly on pointer structure
